@@ -309,6 +309,3 @@ destruct (Z.eq_dec e 0) as [->|He0].
       rewrite <- mult_IZR. apply IZR_le. lia.
 Qed.
 
-Print Assumptions floor_fdiv_exact.
-Print Assumptions ceil_fdiv_exact.
-Print Assumptions int_lt_2p53_representable.
